@@ -20,6 +20,11 @@ CHECKS = {
          "The model shows that with the slot / signature comparison no absent key is answered with another object for any alias relation (and that without it TLC finds the wrong-object reply); on the real server every skipped slot, keys of unloaded epochs, random signatures and absent slots / signatures whose 24-bit in-bucket hash equals a stored one are requested with 1..3 epochs loaded over JSON-RPC and gRPC; TLC judges that each answer is not-found / unavailable.",
          "sig-exists (64-bit) treated as exact; the address-history clause (getSignaturesForAddress) is exercised by the C07 pipeline.",
          "DESIGN.md section 7, C03", "rpc"),
+ "C10": ("model_checking",
+         "TLC exhaustive check of code-shaped EpochLoad.tla (chain of kind / epoch / root checks) which also enumerates every configuration as a replay case; real NewEpochFromConfig over fixture files; TLC trace judge (Trace_EpochLoad.tla)",
+         "Every assignment of index files with <= 2 deviating roles (own file of another epoch / another CAR / wrong --epoch with the same root / another role's file) x config epoch x own-or-foreign CAR (32 296 configurations) is checked on the model (sound and complete) and replayed on the real loader (quick: all single mismatches + a seeded sample of pairs, under three concrete epoch numberings incl. epoch 0; thorough: all); on success identity fields are read back and every CID is fetched; TLC judges each outcome.",
+         "Current index formats only; Filecoin mode not exercised; gsfa directories are built by the real command with two capacity/poll literals shrunk in an overlay copy.",
+         "DESIGN.md section 7, C10", "epochload"),
  "C15": ("model_checking",
          "TLC exhaustive check of PlusCal Accum.tla (every CAR layout x reader/flusher interleaving); TLC-simulated layouts+schedules forced on the real ObjectAccumulator through a gated io.Reader and gated callback; TLC trace judge (Trace_Accum.tla)",
          "Every layout of <= 4 (quick) / 6 (thorough) sections over {flush kind, kept, ignored} x body lengths at a varint boundary, with every interleaving of reader and flusher and queue capacities 1-2, is explored exhaustively (prefix/complete/no-aliasing/termination); TLC-generated layouts and schedules are forced on the real accumulator, plus free-running real-scale runs (1 500 groups, > 5 000 children, slow / random consumers, GOMAXPROCS 1/2/16); delivered groups with offsets are judged by TLC against the true offsets measured by the CAR writer.",
@@ -47,6 +52,8 @@ CHECKS = {
          "DESIGN.md section 7, C06", "gsfa"),
 }
 ENGINES = [
+ {"name": "epochload", "path": "spec/EpochLoad.tla", "serves_properties": ["C10"],
+  "kind_free_text": "TLA+ EpochLoadAbs/EpochLoad + Trace_EpochLoad; Go harness/main/c10_test.go"},
  {"name": "rpc", "path": "spec/Rpc.tla", "serves_properties": ["C02", "C03"],
   "kind_free_text": "TLA+ Ledger + RpcAbs/Rpc/MC_Rpc + Trace_Rpc; Go harness/main/rpc_test.go (JSON-RPC via in-memory fasthttp ctx, gRPC methods called directly)"},
  {"name": "carindex", "path": "spec/CarIndex.tla", "serves_properties": ["C01"],
